@@ -2,12 +2,12 @@
 # usage: tools/eval_isolated.sh <name> <patch.diff> <harness-dir> <check ids...>
 # Runs checks against a seeded change WITHOUT touching /repo: a scratch worktree of /repo HEAD with the
 # patch applied, a copy of the harness (and depth probe) whose path dependency points at that worktree,
-# own target directories under /tmp/iso-target.  Prints one JSON line.  Sequential use only.
+# own target directories under <root>-target.  Prints one JSON line.  One instance per ISO_ROOT (default /tmp/iso).
 set -u
 NAME="$1"; PATCH="$(readlink -f "$2")"; HARNESS="$(readlink -f "$3")"; shift 3
-ROOT=/tmp/iso
+ROOT=${ISO_ROOT:-/tmp/iso}; TGT=${ROOT}-target
 rm -rf $ROOT/repo $ROOT/harness $ROOT/depthprobe $ROOT/out $ROOT/work; git -C /repo worktree prune
-mkdir -p $ROOT /tmp/iso-target
+mkdir -p $ROOT $TGT
 git -C /repo worktree add -q --detach $ROOT/repo HEAD || exit 2
 trap 'git -C /repo worktree remove --force $ROOT/repo >/dev/null 2>&1' EXIT
 (cd $ROOT/repo && git apply "$PATCH") || { echo "{\"name\":\"$NAME\",\"error\":\"patch does not apply\"}"; exit 2; }
@@ -16,19 +16,19 @@ cp -r "$HARNESS" $ROOT/harness; rm -rf $ROOT/harness/target
 sed -i "s#path = \"/repo\"#path = \"$ROOT/repo\"#" $ROOT/harness/Cargo.toml
 cp -r /verif/depthprobe $ROOT/depthprobe; sed -i "s#path = \"/repo\"#path = \"$ROOT/repo\"#" $ROOT/depthprobe/Cargo.toml; cp /repo/Cargo.lock $ROOT/depthprobe/Cargo.lock
 ln -sfn /verif/known_findings.json $ROOT/known_findings.json; ln -sfn /verif/farm-template $ROOT/farm-template
-mkdir -p $ROOT/target; for t in hooks plain repo-bin depthprobe farm; do mkdir -p /tmp/iso-target/$t; ln -sfn /tmp/iso-target/$t $ROOT/target/$t; done
+mkdir -p $ROOT/target; for t in hooks plain repo-bin depthprobe farm; do mkdir -p $TGT/$t; ln -sfn $TGT/$t $ROOT/target/$t; done
 export CARGO_NET_OFFLINE=true
-if ! (cd $ROOT/harness && cargo build --release --offline --features hooks --target-dir /tmp/iso-target/hooks >/tmp/iso-build.log 2>&1); then
-  echo "{\"name\":\"$NAME\",\"error\":\"hooks build failed\"}"; tail -5 /tmp/iso-build.log >&2; exit 2; fi
+if ! (cd $ROOT/harness && cargo build --release --offline --features hooks --target-dir $TGT/hooks >$ROOT-build.log 2>&1); then
+  echo "{\"name\":\"$NAME\",\"error\":\"hooks build failed\"}"; tail -5 $ROOT-build.log >&2; exit 2; fi
 RESULTS=""
 for id in "$@"; do
   case $id in
-    C05) (cd $ROOT/harness && cargo build --release --offline --target-dir /tmp/iso-target/plain >/dev/null 2>&1);;
-    C07) (cd $ROOT/depthprobe && cargo build --offline --target-dir /tmp/iso-target/depthprobe >/dev/null 2>&1);;
-    C12) (cd $ROOT/repo && cargo build --offline --bin xml_schema_generator --target-dir /tmp/iso-target/repo-bin >/dev/null 2>&1);;
+    C05) (cd $ROOT/harness && cargo build --release --offline --target-dir $TGT/plain >/dev/null 2>&1);;
+    C07) (cd $ROOT/depthprobe && cargo build --offline --target-dir $TGT/depthprobe >/dev/null 2>&1);;
+    C12) (cd $ROOT/repo && cargo build --offline --bin xml_schema_generator --target-dir $TGT/repo-bin >/dev/null 2>&1);;
   esac
-  XSGV_DIR=$ROOT XSGV_OUT=$ROOT/out timeout 1200 /tmp/iso-target/hooks/release/xsgv "$id" --tier ${TIER:-quick} > /tmp/iso-$NAME-$id.log 2>&1; code=$?
-  cls=$(grep -A1 -m3 '^VIOLATION' /tmp/iso-$NAME-$id.log | grep 'class=' | sed 's/^ *class=\([^ ]*\).*/\1/' | tr '\n' ',' )
+  XSGV_DIR=$ROOT XSGV_OUT=$ROOT/out timeout 1200 $TGT/hooks/release/xsgv "$id" --tier ${TIER:-quick} > $ROOT-$NAME-$id.log 2>&1; code=$?
+  cls=$(grep -A1 -m3 '^VIOLATION' $ROOT-$NAME-$id.log | grep 'class=' | sed 's/^ *class=\([^ ]*\).*/\1/' | tr '\n' ',' )
   RESULTS="$RESULTS\"$id\":{\"exit\":$code,\"classes\":\"$cls\"},"
 done
 echo "{\"name\":\"$NAME\",\"confirmed\":true,\"isolated\":true,\"checks\":{${RESULTS%,}}}"
